@@ -103,12 +103,20 @@ UNIT_FALLBACK = {
     "msppiece": [("msp::verif::m_msp_sequence_short", "msp_sequence on reads of exactly k = 3, and k - 1, bases")],
 }
 
+LMER_WIDE_QUICK = ("l_new", "l_get", "l_set_mut", "l_wf_canonical")  # cheap families run for the wide arrays (4..6 words) on every change
+
+
 def lmer(fams, tier, ks=None):
-    ns = [1, 2, 3, 4, 5, 6] if tier == "thorough" else [1, 2, 3]
+    ns = [1, 2, 3, 4, 5, 6]
     out = []
     for n in ns:
+        wide_quick = tier != "thorough" and n > 3
         for f in fams:
+            if wide_quick and f not in LMER_WIDE_QUICK:
+                continue
             out.append("vmer::verif::lmer%d::%s" % (n, f))
+        if wide_quick:
+            continue
         for k in (ks or []):
             if k <= 32 * n - 4:
                 out.append("vmer::verif::lmer%d::l_get_kmer_k%d" % (n, k))
@@ -216,7 +224,7 @@ PROPS["C17"] = {
     "bounded": lambda tier: [],
     "design_ref": "DESIGN.md §6 C17",
     "undecided": [],
-    "level_text": "For each capacity N (quick 1..3, thorough 1..6) and a fully symbolic well-formed storage: new/len/get/set_mut/set_slice_mut (frame over every raw lane incl. the length byte, runs crossing word boundaries and touching the last word), rc, get_kmer, ==/Hash are proved against the plain-string spec (Kani, complete per N; loops bounded by N with unwinding assertions). Vmer::from_slice's real default body (shared by Lmer and every other Vmer) is additionally proved for EVERY slice length against the trait-level new / set_mut contracts (Verus unit msppiece, rule R20): the result spells exactly the slice.",
+    "level_text": "For each capacity N (quick: every family for 1..3 words and the cheap families new/len/get/set_mut/canonical form for 4..6 words; thorough: every family for 1..6) and a fully symbolic well-formed storage: new/len/get/set_mut/set_slice_mut (frame over every raw lane incl. the length byte, runs crossing word boundaries and touching the last word), rc, get_kmer, ==/Hash are proved against the plain-string spec (Kani, complete per N; loops bounded by N with unwinding assertions). Vmer::from_slice's real default body (shared by Lmer and every other Vmer) is additionally proved for EVERY slice length against the trait-level new / set_mut contracts (Verus unit msppiece, rule R20): the result spells exactly the slice.",
     "level_note": "Trusted: Kani/CBMC. Preconditions: len <= max_len, bases < 4, 1 <= n <= 32. l_from_slice is bounded (slice length <= 12).",
 }
 
